@@ -107,13 +107,18 @@ def check(ctx):
     v = ctx.fn("random:RandomGen.__are_constraints_violated")
     Fv = Facts(v)
     lp = [s for s in v.node.body if isinstance(s, ast.For)]
-    ctx.require(len(lp) >= 1, "__are_constraints_violated: constraint loop not found")
+    if not lp:
+        # the loop over block.constraints sits under a condition: judge the condition (it must run for every candidate)
+        nested = [s for s in statements(v.node) if isinstance(s, ast.For) and dotted(s.iter) == "block.constraints"]
+        ctx.require(len(nested) >= 1, "__are_constraints_violated: constraint loop not found")
+        ctx.bad(R, v, "conditional rejection loop", "the loop that consults the block's constraints runs only under %s: candidates are accepted without being checked otherwise" % Fv.conds(nested[0]), nested[0])
+        lp = nested
     first = lp[0]
     ok = dotted(first.iter) == "block.constraints" and len(first.body) == 1 and isinstance(first.body[0], ast.If) and not first.body[0].orelse and \
         ast.unparse(first.body[0].test) == "not %s.potential_sample_conforms(sample, block)" % first.target.id and ast.unparse(first.body[0].body[0]) == "return True"
     ctx.check(ok, R, v, "loop %s" % ast.unparse(first).split("\n")[0], "every constraint of the block is consulted; the first non-conforming one rejects",
               "the rejection loop changed: `%s` / `%s`" % (ast.unparse(first.iter), ast.unparse(first.body[0]).split("\n")[0] if first.body else ""), first)
-    ctx.check(v.node.body.index(first) == 0 or all(isinstance(s, ast.Expr) for s in v.node.body[:v.node.body.index(first)]), R, v, "loop first",
+    ctx.check(first in v.node.body and (v.node.body.index(first) == 0 or all(isinstance(s, ast.Expr) for s in v.node.body[:v.node.body.index(first)])), R, v, "loop first",
               "the constraint loop is unconditional", "the constraint loop is no longer executed unconditionally")
     cond = [s for s in v.node.body if isinstance(s, ast.If)]
     ctx.require(len(cond) == 1, "__are_constraints_violated: crossing re-check not found")
